@@ -382,6 +382,9 @@ func runC11(c *Ctx) {
 				}
 			}
 			okRm = okRm && !badRm
+			// the tracked map is keyed by the configured names, events carry the names fsnotify
+			// made (cleaned): the two only meet when the configured names are clean
+			specDirsCleanOnly(c, "C11.3", "tracked-names-clean", "fsnotify reports cleaned names, w.tracked[event.Name] finds a directory only under its cleaned name")
 			r.Check("C11.3", "removed-dir-reported", okRm, c.U.Pos(fn.Pos()), fmt.Sprintf("an event that says a tracked directory is gone from its path - Remove or Rename - hands it to update as removed, so that it is watched again when it reappears (conditions %v)", gone))
 		}
 	}
